@@ -778,8 +778,19 @@ func c14PickIp(p *PRNG, i int, ndom int) (ip string, viaKeeper bool) {
 	case 4:
 		return PickOne(p, []string{"https://x.y.", "http://.", "example.net", ""}), true
 	default:
-		return fmt.Sprintf("https://node%d.%s:%d", i, c14GoodDomains[p.Intn(ndom)], 3000+i), false
+		return fmt.Sprintf("https://%s%s:%d", c14HostPrefix(i), c14GoodDomains[p.Intn(ndom)], 3000+i), false
 	}
+}
+
+// c14HostPrefix: hosts of two ("alpha.com"), three ("node1.alpha.com") and four labels ("eu.node2.alpha.com")
+func c14HostPrefix(i int) string {
+	switch i % 3 {
+	case 1:
+		return ""
+	case 2:
+		return fmt.Sprintf("eu.node%d.", i)
+	}
+	return fmt.Sprintf("node%d.", i)
 }
 
 func (w *c14World) addProvider(addr sdk.AccAddress, spelling, ip string, viaKeeper bool) error {
@@ -848,7 +859,7 @@ func c14RandomHistory(r *RunCtx, p *PRNG, sc int) error {
 	for i := 0; i < n; i++ {
 		ip, via := c14PickIp(p, i, ndom)
 		if sc%3 == 0 && i < 6 { // a third of the worlds: enough eligible providers for big forms
-			ip, via = fmt.Sprintf("https://node%d.%s:%d", i, c14GoodDomains[i], 3000+i), false
+			ip, via = fmt.Sprintf("https://%s%s:%d", c14HostPrefix(i), c14GoodDomains[i], 3000+i), false
 		}
 		if err := w.addProvider(Acct(100+i), Acct(100+i).String(), ip, via); err != nil {
 			return err
@@ -1028,6 +1039,18 @@ func c14RandomHistory(r *RunCtx, p *PRNG, sc int) error {
 			case s < 96 && len(lf.Entries) > 0:
 				// the two address fields the other way round: the prover itself signs, naming a provider of its own form
 				op.Creator, op.Prover = lf.Prover, lf.Entries[p.Intn(len(lf.Entries))].Provider
+			case s < 98 && len(lf.Entries) > 0:
+				// a provider named on this form signs, naming another prover of the same file (one no form was requested for)
+				op.Creator = lf.Entries[p.Intn(len(lf.Entries))].Provider
+				for k := range st.Files {
+					if st.Files[k].Merkle == lf.Merkle && st.Files[k].Owner == lf.Owner && st.Files[k].Start == lf.Start {
+						for _, x := range st.Files[k].Proofs {
+							if x != lf.Prover && x != op.Creator {
+								op.Prover = x
+							}
+						}
+					}
+				}
 			default:
 				op.Creator, op.Start = PickOne(p, w.provs), lf.Start+1 // another key
 			}
